@@ -48,6 +48,7 @@ fn base(config_mode: bool) -> Case {
         twin: true,
         scripted_store: false,
         store_starts_unwritable: false,
+        driver: None,
     }
 }
 
@@ -258,6 +259,38 @@ pub fn all() -> Vec<Witness> {
             Step::EnvW(true),
             Step::Save,
             Step::Power(None),
+        ];
+        out.push(Witness { signature: None, case: c });
+    }
+
+    // 9 (regression): a cold restart zero-fills the process images and PRESERVES their lengths: the
+    // image is sized once at start-up and an I/O driver delivers as many input bytes as the slice it
+    // is handed is long.  Truncating the images would leave driver-fed %I variables at zero forever.
+    {
+        let mut c = base(true);
+        let ix = Addr { area: 'I', size: 'X', byte: 0, bit: 0 };
+        let ib = Addr { area: 'I', size: 'B', byte: 1, bit: 0 };
+        let qx = Addr { area: 'Q', size: 'X', byte: 0, bit: 0 };
+        let qb = Addr { area: 'Q', size: 'B', byte: 1, bit: 0 };
+        c.globals.push(var("start", Ty::S(ST_BOOL), Pol::U, None, Some(ix), "VAR_GLOBAL"));
+        c.globals.push(var("level", Ty::S(11), Pol::U, None, Some(ib), "VAR_GLOBAL"));
+        c.globals.push(var("lamp", Ty::S(ST_BOOL), Pol::U, None, Some(qx), "VAR_GLOBAL"));
+        c.globals.push(var("echo", Ty::S(11), Pol::U, None, Some(qb), "VAR_GLOBAL"));
+        c.progs.push(prog(
+            "P0",
+            "Prog0",
+            vec![],
+            vec![0, 1, 2, 3],
+            vec![Stmt::S(SStmt::Cpy(g("lamp"), g("start"))), Stmt::S(SStmt::Cpy(g("echo"), g("level")))],
+        ));
+        c.driver = Some((2, 2, 0));
+        c.history = vec![
+            Step::Field(vec![1, 42]),
+            Step::Cycle(10 * MS),
+            Step::Restart(Mode::Cold),
+            Step::Cycle(10 * MS),
+            Step::Field(vec![0, 7]),
+            Step::Cycle(10 * MS),
         ];
         out.push(Witness { signature: None, case: c });
     }
